@@ -516,7 +516,7 @@ func checkC07(rep *Report, rng *Rng, tier string) {
 	rep.Evaluations += 2
 	budget := 4000 // enumerated runs (mode A)
 	if tier == "thorough" {
-		budget = 40000
+		budget = 30000
 	}
 	for i := 0; i < n; i++ {
 		r := rng.Fork()
@@ -577,7 +577,7 @@ func checkC07(rep *Report, rng *Rng, tier string) {
 	// Flush, FlushRevert and re-open -- is compared with the byte-level fault model (DiskFault.flush_fault)
 	nC, perC, maxK := 4, 1, 30
 	if tier == "thorough" {
-		nC, perC, maxK = 30, 3, 1 << 30
+		nC, perC, maxK = 10, 2, 1 << 30 // every WriteAt position of the chosen Flush calls, each compared with the byte-level model: ~1 min per Flush
 	}
 	for i := 0; i < nC && len(rep.Violations) == 0; i++ {
 		r := rng.Fork()
